@@ -506,7 +506,8 @@ func runCheck(p *Prop, tier string) int {
 		}
 		return Finding{}, false
 	}
-	nviol, nknown := 0, 0
+	nviol, nknown, unreported := 0, 0, 0
+	const maxReported = 24
 	self, _ := os.Executable()
 	var knownHit []string
 	for _, v := range viols {
@@ -514,6 +515,11 @@ func runCheck(p *Prop, tier string) int {
 			fmt.Printf("KNOWN-FINDING: property=%s %s [%s]\n", p.ID, f.What, v.Key)
 			knownHit = append(knownHit, v.Key)
 			nknown++
+			continue
+		}
+		if nviol >= maxReported {
+			// enough to fail the check; the rest is counted, not re-executed
+			unreported++
 			continue
 		}
 		sum := sha256.Sum256([]byte(v.Key))
@@ -547,7 +553,11 @@ func runCheck(p *Prop, tier string) int {
 		fmt.Printf("VIOLATION property=%s replay=%s\n", p.ID, path)
 		nviol++
 	}
-	writeEvidence(p, c, st, start, nviol, knownHit, nil)
+	if unreported > 0 {
+		fmt.Printf("  ... and %d further violating cases (not re-executed, not listed)\n", unreported)
+		st.Count("violating_cases_beyond_the_first_24_not_listed", int64(unreported))
+	}
+	writeEvidence(p, c, st, start, nviol+unreported, knownHit, nil)
 	fmt.Printf("%s %s: evals=%d nontrivial=%d states=%d transitions=%d schedules=%d outcomes=%d violations=%d known=%d exhaustive=%v levels=%v cut=%v wall=%.1fs\n",
 		p.ID, tier, st.Evals, st.Nontrivial, st.States, st.Transitions, st.Schedules, len(st.Outcomes), nviol, nknown, len(st.Cut) == 0, st.Levels, st.Cut, time.Since(start).Seconds())
 	if nviol > 0 {
